@@ -228,6 +228,25 @@ func (p *PKI) ReissueRoot(win Window) *Cert {
 	return Issue(s, p.RootKey, nil, p.RootKey)
 }
 
+// ReissueRootSpec returns another self-signed certificate of the same root key
+// from an edited copy of the root's spec.
+func (p *PKI) ReissueRootSpec(edit func(*CertSpec)) *Cert {
+	s := p.RootSpec
+	edit(&s)
+	return Issue(s, p.RootKey, nil, p.RootKey)
+}
+
+// SecondTcbSigner issues another TCB-signing certificate (own key and serial) under the root.
+func (p *PKI) SecondTcbSigner(r Rand) *Cert {
+	s := p.TcbSpec
+	s.Serial = randSerial(r)
+	s.SKI = ski(r)
+	return Issue(s, NewKey(r), p.Root, p.RootKey)
+}
+
+// RandSerial draws a serial number.
+func RandSerial(r Rand) *big.Int { return randSerial(r) }
+
 // Pool returns a CertPool holding the given certificates.
 func Pool(certs ...*Cert) *x509.CertPool {
 	cp := x509.NewCertPool()
